@@ -214,6 +214,48 @@ def large_count_cases(chk):
     return out
 
 
+def threshold_cases(chk, kinds=None):
+    """blocks whose sizes cross the 16-bit limits (2^13 eight-byte points = 2^16 bytes; 2^16 frames) with gap edges
+    placed exactly on, one before and one after the power of two"""
+    rng = common.rng_for(chk.seed, "thresholds")
+    out = []
+    P = 65536
+
+    def scal(n, gaps):
+        fr = [blocks.rf32(rng) for _ in range(n)]
+        for a, b in gaps:
+            for i in range(a, b):
+                fr[i] = []
+        return fr
+
+    def vec(n, ncomp, gaps):
+        fr = [[(i * 7 + c) & 0x3FFFFFFF for c in range(ncomp)] for i in range(n)]
+        for a, b in gaps:
+            for i in range(a, b):
+                fr[i] = []
+        return fr
+    n = P + 5000
+    sigs = [[[0x61], scal(n, [(P - 300, P)])],                       # gap ends exactly on 2^16
+            [[0x62], scal(n, [(P - 300, P - 1)])],                   # one before
+            [[0x63], scal(n, [(P, P + 7)])],                         # gap starts exactly on 2^16
+            [[0x64], scal(n, [(4096, 8192), (32768, 32769), (P - 1, P + 1)])],
+            [[0x65], scal(n, [])]]
+    out.append(("EM", 1, [len(sigs), 1000, 0, n, list(range(len(sigs))), sigs]))
+    z3, z9 = [0, 0, 0], [0] * 9
+    out.append(("D3", 2, [n, 100, 0, 2, z3, z9, z3, 0, [], [[[0x61], vec(n, 3, [(P - 10, P)])], [[0x62], vec(n, 3, [(0, 1), (P, P + 1)])]]]))
+    out.append(("FT", 1, [1, 100, 0, n, z3, z9, z3, [], [[[0x61], vec(n, 9, [(P - 3, P), (P + 1, P + 2)])]]]))
+    out.append(("PD", 1, [1, 100, 0, n, [0], [vec(n, 6, [(P - 2, P)])]]))
+    for npts in (8191, 8192, 8193, 65535):
+        cell = [[(i * 3) & 0x3FFFFFFF, (i * 5) & 0x3FFFFFFF] for i in range(npts)]
+        out.append(("D2", 2, [2, 1, 100, 0, 0, [1, 2], [[cell, cell[:3]]]]))
+    if chk.tier == "quick":                      # the 9- and 6-component kinds only in the thorough tier (model time)
+        out = [c for c in out if c[0] not in ("FT", "PD")]
+    out = [c for c in out if kinds is None or c[0] in kinds]
+    for k, f, v in out:
+        chk.count("sizes across 2^13 / 2^16: " + k)
+    return out
+
+
 def load_corpus(pid):
     d = os.path.join(common.VERIF, "corpus", pid)
     out = []
@@ -339,3 +381,59 @@ def check_inplace(chk, pid, n):
             elif i["dec"] != cur:
                 chk.violation("%s fmt=%d (%s) after an in-place edit: decode(encode(b)) differs from the block's current content at %s" %
                               (kind, fmt, origin, fdiff(i["dec"], cur)), case, True)
+
+
+# ------------------------------------------------------------------ arrays with another layout in memory
+def check_layouts(chk, pid, n):
+    """the property pid (C01 / C02 / C05 / C06) on blocks whose constructor arguments are arrays with the same values
+    but another layout in memory (column-major, strided, negative strides, big-endian, read-only, unaligned): the
+    model side is the same value v — a value has no layout"""
+    rng = common.rng_for(chk.seed, pid, "layouts")
+    cases = []
+    for i in range(n):
+        kind = blocks.KINDS[i % len(blocks.KINDS)]
+        fmt, v = blocks.gen(kind, rng, big=4)
+        cases.append((kind, fmt, v, blocks.LAYOUTS[(i // len(blocks.KINDS)) % len(blocks.LAYOUTS)]))
+    # gap-free multi-frame tracks and non-symmetric matrices, where a layout mix-up shows
+    for lay in blocks.LAYOUTS:
+        nfr = 3 + rng.randrange(4)
+        fr3 = [[blocks.rf32(rng) for _ in range(3)] for _ in range(nfr)]
+        rot = [blocks.rf32(rng) for _ in range(9)]
+        z3 = [0, 0, 0]
+        for fmt in (1, 2):
+            cases.append(("D3", fmt, [nfr, 100, 0, 1, z3, rot, z3, 0, [0, [], []] if fmt == 1 else [], [[[0x61], fr3]]], lay))
+    mres = model_eval([(k, f, v) for k, f, v, lay in cases], want=("wfb", "enc", "size"))
+    for (kind, fmt, v, lay), m in zip(cases, mres):
+        chk.count("array layout: " + lay)
+        chk.note_case((kind, fmt, v, lay), blocks.nontrivial(kind, v))
+        case = {"kind": kind, "fmt": fmt, "v": v, "array_layout": lay}
+        if not m["wfb"]:
+            raise RuntimeError("generator produced an invalid block: " + blocks.describe(kind, fmt, v))
+        blocks.LAYOUT = lay
+        try:
+            i = impl_roundtrip(kind, fmt, v)
+        finally:
+            blocks.LAYOUT = None
+        if "build_err" in i:
+            chk.violation("%s: valid block cannot be constructed from %s arrays: %s" % (kind, lay, i["build_err"]), case, True)
+            continue
+        if i["enc"] is None:
+            chk.violation("%s: valid block built from %s arrays cannot be encoded: %s" % (kind, lay, i["enc_exc"]), case, True)
+            continue
+        if pid == "C02":
+            if not (i["nbytes"] == len(i["enc"]) == i.get("consumed")):
+                chk.violation("%s fmt=%d built from %s arrays: nBytes=%r, bytes written=%d, bytes consumed=%r" %
+                              (kind, fmt, lay, i["nbytes"], len(i["enc"]), i.get("consumed")), case, True)
+            elif m["size"] != len(i["enc"]):
+                chk.violation("%s: size differs from the model" % kind, dict(case, correspondence="Fmt.size"), False)
+        elif pid == "C06":
+            if i["enc"] != m["enc"]:
+                k = next((j for j, (x, y) in enumerate(zip(i["enc"], m["enc"])) if x != y), min(len(i["enc"]), len(m["enc"])))
+                chk.violation("%s fmt=%d built from %s arrays: bytes written differ from the layout-driven encoder at offset %d "
+                              "(%d vs %d bytes)" % (kind, fmt, lay, k, len(i["enc"]), len(m["enc"])), case, True)
+        else:
+            if i.get("dec") is None:
+                chk.violation("%s built from %s arrays: own encoding cannot be decoded: %s" % (kind, lay, i.get("dec_exc")), case, True)
+            elif i["dec"] != v:
+                chk.violation("%s fmt=%d built from %s arrays: decode(encode(b)) differs from b at %s" %
+                              (kind, fmt, lay, fdiff(i["dec"], v)), case, True)
